@@ -139,7 +139,8 @@ class Interp:
         return r
 
     # ------------------------------------------------------------ function
-    def summarise(self, fname, argterms=None, assume=None):
+    def summarise(self, fname, argterms=None, boolmem=()):
+        self.boolmem = set(boolmem)
         f = self.m["functions"][fname]
         S = Summary()
         if f["decl"]:
@@ -426,6 +427,9 @@ class Interp:
                 g = self.global_bytes(base[2])
                 if g is not None and 0 <= off and off * 8 + bits <= g[1]:
                     return T.slice_(g, off * 8, bits)
+        if base[0] == "arg" and base[2] in self.boolmem and bits % 8 == 0:
+            # memory known to hold valid bools: every byte is zext(bit)
+            return T.concat([T.concat([T.mk("mem", 1, base, off + i, 0), T.const(7, 0)]) for i in range(bits // 8)])
         # forward from earlier stores to exactly the same location, otherwise
         # initial memory if no earlier store can alias
         for a in reversed(self._S.accesses[:-1]):
@@ -477,6 +481,8 @@ class Interp:
         if base in ("llvm.lifetime.start", "llvm.lifetime.end", "llvm.dbg.value", "llvm.dbg.declare",
                     "llvm.assume", "llvm.experimental.noalias.scope.decl", "llvm.dbg.label"):
             return None
+        if base == "llvm.ctpop":
+            return T.concat([T.ctpop(eb, x) for x in self.lanes(args[0], n, eb)])
         if base in LANEWISE_INTR:
             k = LANEWISE_INTR[base]
             ls = [self.lanes(a, n, eb) for a in args[:k]]
